@@ -636,6 +636,7 @@ def apply_rewrites(text, rewrites, log, what):
 # (prelude/idioms.rs) whose body is the original expression.  Optional: applied only where the shape occurs, so that a
 # realistic edit introducing the idiom is decided instead of ending as "unsupported construct".
 IDIOMS = [
+    (r"if let \[(\w+)\] = (\w+)\.as_slice\(\) \{", r"if \2.len() == 1 { let \1 = &\2[0];", "single-element slice pattern `if let [x] = v.as_slice()` (Verus has no slice patterns)"),
     (r"([A-Za-z_][\w.]*)\s*\.entry\(([^()]*(?:\([^()]*\))?[^()]*)\)\s*\.or_insert\(([^()]*(?:\([^()]*\))?[^()]*)\);",
      r"map_entry_or_insert(&mut \1, \2, \3);", "HashMap::entry(k).or_insert(v) as a statement"),
 ]
